@@ -300,7 +300,7 @@ def run(c):
     c.log('built + audited')
     import multiprocessing, threading
     # ---- trimnodal stream: pure function of a seed, evaluated in worker processes while the Lean driver and the other streams run
-    njobs = 96 if quick else 2400
+    njobs = 80 if quick else 1800
     jobs = [(c.rng.getrandbits(40), quick) for _ in range(njobs)]
     with multiprocessing.get_context('fork').Pool(6 if quick else 10) as pool:
         pending = pool.map_async(c10x.trimnodal_case, jobs, chunksize=2 if quick else 8)
@@ -308,9 +308,9 @@ def run(c):
         ctx.known_probes(); c.log('probes done')
         ctx.gen_trim1d(150 if quick else 4000); c.log('trim1d generated')
         ctx.gen_grid(80 if quick else 1500); c.log('grid generated')
-        ctx.gen_hier(70 if quick else 800); c.log('hier generated')
+        ctx.gen_hier(70 if quick else 650); c.log('hier generated')
         ctx.gen_axis(150 if quick else 4000)
-        ctx.gen_sbnd(60 if quick else 1500); c.log('axis + sbnd done')
+        ctx.gen_sbnd(60 if quick else 1000); c.log('axis + sbnd done')
         # ---- one batch to the Lean model (in a thread: the driver is a separate process), the numeric stream meanwhile
         box = {}
         def ask():
